@@ -670,3 +670,303 @@ Qed.
 
 Theorem reachable_inv n ops : Inv (final (init n) ops).
 Proof. apply final_inv. apply init_inv. Qed.
+
+(* ====================================================================================== *)
+(* What the invariant says, clause by clause                                              *)
+(* ====================================================================================== *)
+
+(* the specification side, in plain words *)
+Lemma live_spec m born r k :
+  In k (live m born r) <-> exists a, In a born /\ a_key a = k /\ a_model a = m /\ ~ In k r.
+Proof.
+  unfold live. rewrite livef_In. unfold of_model. split; intros [a [H1 [H2 [H3 H4]]]]; exists a; repeat split; auto.
+  - apply Z.eqb_eq. exact H3.
+  - apply Z.eqb_eq. exact H3.
+Qed.
+
+Lemma live_cls_spec m c born r k :
+  In k (live_cls m c born r) <->
+  exists a, In a born /\ a_key a = k /\ a_model a = m /\ a_cls a = c /\ ~ In k r.
+Proof.
+  unfold live_cls. rewrite livef_In. unfold of_class. split.
+  - intros [a [H1 [H2 [H3 H4]]]]. apply andb_true_iff in H3. destruct H3 as [H3 H5].
+    apply Z.eqb_eq in H3. apply Z.eqb_eq in H5. exists a. repeat split; auto.
+  - intros [a [H1 [H2 [H3 [H5 H4]]]]]. exists a. repeat split; auto.
+    rewrite H3, H5, !Z.eqb_refl. reflexivity.
+Qed.
+
+(* live_cls is live filtered by exact class, order kept *)
+Lemma live_cls_filter m c born r :
+  live_cls m c born r =
+  map a_key (filter (fun a => a_cls a =? c) (filter (fun a => of_model m a && negb (zmem (a_key a) r)) born)).
+Proof.
+  unfold live_cls, livef, of_class, of_model. induction born as [|a t IH]; [reflexivity|].
+  cbn [filter]. destruct (a_model a =? m); cbn [andb].
+  - destruct (zmem (a_key a) r); cbn [negb andb].
+    + rewrite andb_false_r. exact IH.
+    + rewrite andb_true_r. cbn [filter]. destruct (a_cls a =? c); cbn [map]; [f_equal|]; exact IH.
+  - exact IH.
+Qed.
+
+Lemma live_NoDup m born r : NoDup (map a_key born) -> NoDup (live m born r).
+Proof.
+  intros H. unfold live, livef. induction born as [|a t IH]; simpl; [constructor|].
+  simpl in H. inversion H as [|x l Hx Hl]; subst.
+  destruct (of_model m a && negb (zmem (a_key a) r)); [|apply IH; exact Hl].
+  simpl. constructor; [|apply IH; exact Hl].
+  intros Hin. apply Hx. apply in_map_iff in Hin. destruct Hin as [a' [H1 H2]].
+  apply filter_In in H2. rewrite <- H1. apply in_map. tauto.
+Qed.
+
+Lemma getm_in_range ms i : 0 <= i < zlen ms -> exists x, getm ms i = Some x.
+Proof.
+  unfold getm, zlen. intros H. destruct (i <? 0) eqn:E; [lia|].
+  destruct (nth_error ms (Z.to_nat i)) eqn:En; [eauto|].
+  apply nth_error_None in En. lia.
+Qed.
+
+Section Reachable.
+  Variables (n : Z) (ops : list op).
+  Let w := final (init n) ops.
+  Variables (m : Z) (ms : mstate).
+  Hypothesis Hm : getm (w_models w) m = Some ms.
+
+  Let HI : Inv w := reachable_inv n ops.
+  Let Hms : minv (w_born w) (w_removed w) m ms := inv_models w HI m ms Hm.
+
+  Lemma thm_hard_exact : m_hard ms = live m (w_born w) (w_removed w).
+  Proof. exact (mi_hard _ _ _ _ Hms). Qed.
+
+  Lemma thm_agents_exact :
+    Permutation (m_all ms) (live m (w_born w) (w_removed w)) /\
+    NoDup (m_all ms) /\
+    (m_reord ms = false -> m_all ms = live m (w_born w) (w_removed w)).
+  Proof.
+    pose proof (mi_all _ _ _ _ Hms) as Hp. rewrite (mi_hard _ _ _ _ Hms) in Hp.
+    split; [exact Hp|]. split.
+    - eapply Permutation_NoDup; [apply Permutation_sym; exact Hp|]. apply live_NoDup. exact (inv_nodup w HI).
+    - intros H. rewrite (mi_all_eq _ _ _ _ Hms H). exact (mi_hard _ _ _ _ Hms).
+  Qed.
+
+  Lemma thm_by_type_exact c :
+    match bt_get c (m_bt ms) with
+    | Some l => Permutation l (live_cls m c (w_born w) (w_removed w)) /\
+                (m_reord ms = false -> l = live_cls m c (w_born w) (w_removed w))
+    | None => live_cls m c (w_born w) (w_removed w) = []
+    end.
+  Proof. exact (mi_bt _ _ _ _ Hms c). Qed.
+
+  Lemma thm_agent_types_nodup : NoDup (map fst (m_bt ms)).
+  Proof. exact (mi_bt_nodup _ _ _ _ Hms). Qed.
+
+  (* every class that has a live agent is a key of agents_by_type (= is named by agent_types) *)
+  Lemma thm_types_cover a :
+    In a (w_born w) -> a_model a = m -> ~ In (a_key a) (w_removed w) ->
+    exists l, bt_get (a_cls a) (m_bt ms) = Some l /\ In (a_key a) l.
+  Proof.
+    intros Hin Hmod Hr. pose proof (mi_bt _ _ _ _ Hms (a_cls a)) as Hb.
+    assert (In (a_key a) (live_cls m (a_cls a) (w_born w) (w_removed w))) as Hl.
+    { apply live_cls_spec. exists a. repeat split; auto. }
+    destruct (bt_get (a_cls a) (m_bt ms)) as [l|].
+    - exists l. split; [reflexivity|]. eapply Permutation_in; [apply Permutation_sym; apply Hb|exact Hl].
+    - rewrite Hb in Hl. destruct Hl.
+  Qed.
+
+  (* ids are FIRST_ID, FIRST_ID+1, ... in creation order, removed agents included *)
+  Lemma thm_ids_sequential :
+    map a_uid (born_of m (w_born w)) = zrange 1 (zlen (born_of m (w_born w))) /\
+    m_next ms = zlen (born_of m (w_born w)) + 1.
+  Proof.
+    pose proof (mi_ids _ _ _ _ Hms) as Hi. pose proof (mi_next _ _ _ _ Hms) as Hn. unfold FIRST_ID in *.
+    assert (zlen (born_of m (w_born w)) = m_next ms - 1) as Hl.
+    { unfold zlen. rewrite <- (map_length a_uid), Hi, zrange_length. lia. }
+    rewrite Hl. split; [exact Hi|lia].
+  Qed.
+End Reachable.
+
+Lemma thm_ids_unique n ops a b :
+  let w := final (init n) ops in
+  In a (w_born w) -> In b (w_born w) -> a_model a = a_model b -> a_uid a = a_uid b -> a = b.
+Proof.
+  intros w Ha Hb Hmod Huid. pose proof (reachable_inv n ops) as HI. fold w in HI.
+  destruct (getm_in_range _ _ (inv_amodel w HI a Ha)) as [ms Hg].
+  pose proof (mi_ids _ _ _ _ (inv_models w HI _ _ Hg)) as Hi.
+  assert (NoDup (map a_uid (born_of (a_model a) (w_born w)))) as Hnd by (rewrite Hi; apply zrange_NoDup).
+  eapply (NoDup_map_eq a_uid); [exact Hnd| | |exact Huid].
+  - apply filter_In. split; [exact Ha|]. apply Z.eqb_refl.
+  - apply filter_In. split; [exact Hb|]. unfold of_model. rewrite Hmod. apply Z.eqb_refl.
+Qed.
+
+(* ---------- removal: idempotent, and out of every view at once ---------- *)
+Lemma deregister_twice ms k c :
+  deregister (fst (deregister ms k c)) k c = (fst (deregister ms k c), false).
+Proof.
+  assert (zmem k (m_hard (fst (deregister ms k c))) = false) as H.
+  { unfold deregister. destruct (zmem k (m_hard ms)) eqn:E; [|cbn [fst]; exact E].
+    cbn [m_next m_hard m_all m_bt m_reord].
+    destruct (bt_get c (m_bt ms)) as [l|]; [|cbn [fst m_hard]; apply zmem_zdel].
+    destruct (zmem k l); [|cbn [fst m_hard]; apply zmem_zdel].
+    cbn [m_next m_hard m_all m_bt m_reord].
+    destruct (zmem k (m_all ms)); cbn [fst m_hard]; apply zmem_zdel. }
+  unfold deregister at 1. rewrite H. reflexivity.
+Qed.
+
+Lemma thm_remove_idempotent w k :
+  w_models (agent_remove (agent_remove w k) k) = w_models (agent_remove w k) /\
+  w_born (agent_remove (agent_remove w k) k) = w_born (agent_remove w k) /\
+  w_nkey (agent_remove (agent_remove w k) k) = w_nkey (agent_remove w k).
+Proof.
+  destruct (find_agent (w_born w) k) as [a|] eqn:Ef.
+  2:{ assert (agent_remove w k = w) as E1 by (unfold agent_remove, deregister_obj; rewrite Ef; reflexivity).
+      rewrite !E1. auto. }
+  destruct (getm (w_models w) (a_model a)) as [ms|] eqn:Eg.
+  2:{ assert (agent_remove w k = w) as E1 by (unfold agent_remove, deregister_obj; rewrite Ef, Eg; reflexivity).
+      rewrite !E1. auto. }
+  destruct (deregister ms k (a_cls a)) as [ms' ok] eqn:Ed.
+  assert (agent_remove w k =
+          {| w_models := setm (w_models w) (a_model a) ms'; w_born := w_born w; w_nkey := w_nkey w;
+             w_removed := k :: w_removed w |}) as E1.
+  { unfold agent_remove, deregister_obj. rewrite Ef, Eg, Ed. reflexivity. }
+  rewrite E1. unfold agent_remove, deregister_obj. cbn [w_born w_models w_nkey w_removed]. rewrite Ef.
+  rewrite (getm_setm_same _ _ _ _ Eg).
+  replace ms' with (fst (deregister ms k (a_cls a))) by (rewrite Ed; reflexivity).
+  rewrite deregister_twice. cbn [fst w_models w_born w_nkey].
+  rewrite setm_setm. auto.
+Qed.
+
+Lemma thm_remove_clears w k a :
+  Inv w -> find_agent (w_born w) k = Some a ->
+  let w' := agent_remove w k in
+  forall m ms, getm (w_models w') m = Some ms ->
+    ~ In k (m_hard ms) /\ ~ In k (m_all ms) /\ (forall c l, bt_get c (m_bt ms) = Some l -> ~ In k l).
+Proof.
+  intros HI Ef w' m ms Hg.
+  pose proof (agent_remove_inv w k HI) as HI'. fold w' in HI'.
+  assert (In k (w_removed w')) as Hr.
+  { unfold w', agent_remove, deregister_obj. rewrite Ef.
+    apply find_agent_Some in Ef. destruct Ef as [Hin _].
+    destruct (getm_in_range _ _ (inv_amodel w HI a Hin)) as [ms0 Hg0]. rewrite Hg0.
+    destruct (deregister ms0 k (a_cls a)). cbn [fst w_removed]. left. reflexivity. }
+  pose proof (inv_models w' HI' m ms Hg) as [Hh Ha _ Hb _ _ _].
+  assert (~ In k (m_hard ms)) as H1 by (rewrite Hh; apply livef_removed_notin; exact Hr).
+  split; [exact H1|]. split.
+  - intros H. apply H1. eapply Permutation_in; eassumption.
+  - intros c l Ec H. specialize (Hb c). rewrite Ec in Hb. destruct Hb as [Hp _].
+    eapply (livef_removed_notin (of_class m c) (w_born w') (w_removed w') k Hr).
+    eapply Permutation_in; eassumption.
+Qed.
+
+(* ---------- coexisting models: an action on one model leaves the others alone ---------- *)
+Lemma agent_init_frame w m c p j :
+  j <> m -> getm (w_models (fst (agent_init w m c p))) j = getm (w_models w) j.
+Proof.
+  intros Hne. unfold agent_init. destruct (getm (w_models w) m) as [ms|] eqn:Eg; [|reflexivity].
+  cbn [fst w_models]. eapply getm_setm_other; eassumption.
+Qed.
+
+Lemma deregister_obj_born w k : w_born (fst (deregister_obj w k)) = w_born w.
+Proof.
+  unfold deregister_obj. destruct (find_agent (w_born w) k) as [a|]; [|reflexivity].
+  destruct (getm (w_models w) (a_model a)) as [ms|]; [|reflexivity].
+  destruct (deregister ms k (a_cls a)). reflexivity.
+Qed.
+
+Lemma deregister_obj_frame w k j :
+  (forall a, find_agent (w_born w) k = Some a -> a_model a <> j) ->
+  getm (w_models (fst (deregister_obj w k))) j = getm (w_models w) j.
+Proof.
+  intros H. unfold deregister_obj. destruct (find_agent (w_born w) k) as [a|] eqn:Ef; [|reflexivity].
+  destruct (getm (w_models w) (a_model a)) as [ms|] eqn:Eg; [|reflexivity].
+  destruct (deregister ms k (a_cls a)) as [ms' ok]. cbn [fst w_models].
+  eapply getm_setm_other; [exact Eg|]. intros ->. exact (H a eq_refl eq_refl).
+Qed.
+
+Lemma fold_remove_born l : forall w, w_born (fold_left agent_remove l w) = w_born w.
+Proof.
+  induction l as [|k t IH]; intros w; simpl; [reflexivity|].
+  rewrite IH. apply deregister_obj_born.
+Qed.
+
+Lemma fold_remove_frame l j : forall w,
+  (forall k a, In k l -> find_agent (w_born w) k = Some a -> a_model a <> j) ->
+  getm (w_models (fold_left agent_remove l w)) j = getm (w_models w) j.
+Proof.
+  induction l as [|k t IH]; intros w H; simpl; [reflexivity|].
+  rewrite IH.
+  - apply deregister_obj_frame. intros a Ha. apply (H k a); [left; reflexivity|exact Ha].
+  - intros k' a Hin Hf. unfold agent_remove in Hf. rewrite deregister_obj_born in Hf.
+    apply (H k' a); [right; exact Hin|exact Hf].
+Qed.
+
+Lemma create_loop_frame m c f n j is : forall w,
+  j <> m -> getm (w_models (fst (create_loop w m c f n is))) j = getm (w_models w) j.
+Proof.
+  induction is as [|i t IH]; intros w Hne; simpl; [reflexivity|].
+  pose proof (agent_init_frame w m c (pay_at f n i) j Hne) as H1.
+  destruct (agent_init w m c (pay_at f n i)) as [w1 [k|]]; cbn [fst] in H1.
+  - specialize (IH w1 Hne). destruct (create_loop w1 m c f n t) as [w2 ks]. cbn [fst] in *. congruence.
+  - rewrite IH by exact Hne. exact H1.
+Qed.
+
+Lemma hard_agents_of_model w m ms k a :
+  Inv w -> getm (w_models w) m = Some ms -> In k (m_hard ms) -> find_agent (w_born w) k = Some a -> a_model a = m.
+Proof.
+  intros HI Hg Hin Hf. rewrite (mi_hard _ _ _ _ (inv_models w HI m ms Hg)) in Hin.
+  apply live_spec in Hin. destruct Hin as [a' [H1 [H2 [H3 _]]]].
+  apply find_agent_Some in Hf. destruct Hf as [H4 H5].
+  assert (a' = a) by (eapply born_unique; [exact (inv_nodup w HI)| | |]; congruence). subst. reflexivity.
+Qed.
+
+Lemma remove_all_frame w m j :
+  Inv w -> j <> m -> getm (w_models (remove_all w m)) j = getm (w_models w) j.
+Proof.
+  intros HI Hne. unfold remove_all. destruct (getm (w_models w) m) as [ms|] eqn:Eg; [|reflexivity].
+  apply fold_remove_frame. intros k a Hin Hf.
+  rewrite (hard_agents_of_model w m ms k a HI Eg Hin Hf). congruence.
+Qed.
+
+(* the model a script-free operation acts on *)
+Definition op_target (w : world) (o : op) : option Z :=
+  match o with
+  | NewModel => None
+  | Create m _ _ | CreateMany m _ _ _ | RemoveAll m | ReorderAll m _ | ReorderType m _ _ => Some m
+  | Remove k | Deregister k => option_map a_model (find_agent (w_born w) k)
+  | Activate m _ _ _ => Some m
+  end.
+Definition is_activate (o : op) : bool := match o with Activate _ _ _ _ => true | _ => false end.
+
+Lemma getm_app_old ms x j y : getm ms j = Some y -> getm (ms ++ [x]) j = Some y.
+Proof.
+  unfold getm. destruct (j <? 0); [discriminate|]. intros H.
+  rewrite nth_error_app1; [exact H|]. apply nth_error_Some. congruence.
+Qed.
+
+Lemma thm_frame_simple w o j msj :
+  Inv w -> is_activate o = false -> op_target w o <> Some j ->
+  getm (w_models w) j = Some msj ->
+  getm (w_models (fst (step w o))) j = Some msj.
+Proof.
+  intros HI Hna Ht Hj. unfold step. destruct (step_op w o) as [w' r] eqn:Es. cbn [fst].
+  assert (w' = fst (step_op w o)) as -> by (rewrite Es; reflexivity). clear Es r.
+  rewrite <- Hj.
+  destruct o as [|m c v|m c n f|k|k|m|m order|m c order|m c shuf s]; simpl in Ht |- *; try discriminate.
+  - rewrite Hj. apply getm_app_old. exact Hj.
+  - pose proof (agent_init_frame w m c (PInt v) j) as H.
+    destruct (agent_init w m c (PInt v)) as [w' [k|]]; apply H; congruence.
+  - destruct (getm (w_models w) m); [|reflexivity].
+    pose proof (create_loop_frame m c f n j (seq 0 (Z.to_nat n)) w) as H.
+    unfold create_agents. destruct (create_loop w m c f n (seq 0 (Z.to_nat n))) as [w' ks].
+    apply H. congruence.
+  - pose proof (deregister_obj_frame w k j) as H.
+    destruct (deregister_obj w k) as [w' [b|]]; apply H; intros a Ha; rewrite Ha in Ht; simpl in Ht; congruence.
+  - pose proof (deregister_obj_frame w k j) as H.
+    destruct (deregister_obj w k) as [w' [[|]|]]; apply H; intros a Ha; rewrite Ha in Ht; simpl in Ht; congruence.
+  - destruct (getm (w_models w) m); [|reflexivity]. apply remove_all_frame; [exact HI|congruence].
+  - destruct (getm (w_models w) m) as [ms|] eqn:Eg; [|reflexivity].
+    destruct (is_perm order (m_all ms)); [|reflexivity]. cbn [fst set_models w_models].
+    eapply getm_setm_other; [exact Eg|congruence].
+  - destruct (getm (w_models w) m) as [ms|] eqn:Eg; [|reflexivity].
+    destruct (bt_get c (m_bt ms)); [|reflexivity].
+    destruct (is_perm order l); [|reflexivity]. cbn [fst set_models w_models].
+    eapply getm_setm_other; [exact Eg|congruence].
+Qed.
